@@ -218,6 +218,45 @@ impl UnifyProp {
         Ok(Outcome { steps, final_tuple, stopped_occurs })
     }
 
+    /// A generated program (alias-heavy bodies, facts with variables nested in structures) that needs no occurs check by
+    /// the reference: after every answer the substitution set itself is searched for a binding cycle, before anything
+    /// resolves or prints it; then the answer is resolved and compared with the reference.
+    fn check_alias_program(&self, s: &mut dyn Src, rep: &mut Report) -> CaseResult {
+        use crate::refsolve::{solve_program, Limits, Status};
+        let feat = Features { cut: false, not: false, output: false, anon: true, alias_heavy: true };
+        let (p, family) = gen_any_program(s, feat);
+        if rep.decode_only { return CaseResult::Pass; }
+        let reference = solve_program(&p, Limits::default());
+        if reference.status != Status::Finished { return CaseResult::Discard("reference did not finish / needs an occurs check".into()); }
+        let expected: Vec<Vec<Term>> = reference.answers().into_iter().cloned().collect();
+        let case = format!("{}", p);
+        let mk = |kind: &str, msg: String| CaseResult::Fail(Failure { kind: kind.to_string(), signature: format!("{}:{}", self.id, kind), message: msg, case: case.clone() });
+        let r = guarded(crate::props::solver::tick_budget(reference.stats.steps), || -> Result<Vec<Vec<Term>>, String> {
+            suiron::start_query();
+            let kb = build_kb(&p.clauses);
+            let goal = Rc::new(query_goal(&p));
+            let sn = suiron::make_base_node(Rc::clone(&goal), &kb);
+            let mut got = vec![];
+            while let Some(ss) = suiron::next_solution(Rc::clone(&sn)) {
+                if let Some(c) = binding_cycle(&ss) { return Err(format!("answer #{}: {}", got.len() + 1, c)); }
+                let (args, _, _) = decode_answer(&goal, &ss);
+                got.push(args);
+                if got.len() > expected.len() + 3 { break; }
+            }
+            Ok(got)
+        });
+        match r {
+            Ok(Ok(got)) => {
+                if got.len() != expected.len() || !got.iter().zip(expected.iter()).all(|(x, y)| variant(x, y)) { return CaseResult::Discard("answers differ from the reference (C01's business)".into()); }
+                rep.class(&format!("program:{}", family));
+                if !got.is_empty() { rep.class("program-with-answers"); }
+                CaseResult::Pass
+            }
+            Ok(Err(c)) => mk("bindings-form-a-cycle", c),
+            Err(e) => mk("engine-failure", format!("{:?}", e)),
+        }
+    }
+
     fn gen_history(&self, s: &mut dyn Src) -> Vec<(Term, Term)> {
         let mut cfg = unify_universe();
         match self.aspect {
@@ -494,6 +533,8 @@ impl Property for UnifyProp {
     fn budget(&self) -> (u64, u64) { match self.aspect { UAspect::Symmetry => (30_000, 200_000), UAspect::Acyclic => (40_000, 400_000), _ => (80_000, 500_000) } }
 
     fn check(&self, src: &mut dyn Src, rep: &mut Report) -> CaseResult {
+        // C08 also quantifies over programs that alias variables through rule heads: one case in five
+        if self.aspect == UAspect::Acyclic && chance(src, 1, 5) { return self.check_alias_program(src, rep); }
         let h = self.gen_history(src);
         self.check_history(&h, rep)
     }
